@@ -3,3 +3,10 @@ import props.trees as T
 
 def run(chk):
     return T.run(chk, "C14", T.view_c14, ["PV.Props.C14", "PV.Props.C12clear"], "C14 trees")
+
+
+def replay_family(cfg):
+    import pv, diffrun
+    fam = diffrun.Family("tree", pv.build_harness("tree", cfg, ["tree.c"], san="asan"), spec_view=T.view_c14)
+    fam.keep_prefix = 1
+    return fam
